@@ -314,7 +314,21 @@ class Executor(StmtMixin, LoopMixin, DriverMixin):
                 b = rest.pop(0) if node.slice.upper is not None else None
                 if isinstance(v.t, ty.Opt):
                     v = ty.opt_val(v)
-                out.append((s, ops.slice_(v, a, b, simp=self.simp_for(s))))
+                # a bound that may be None: None means "no bound" (s[a:None] == s[a:])
+                variants = [(s, a, b)]
+                for which in (0, 1):
+                    nxt = []
+                    for s1, a1, b1 in variants:
+                        x = (a1, b1)[which]
+                        if x is not None and isinstance(x.t, ty.Opt):
+                            isn = ty.opt_is_none(x)
+                            for s2, pick in self.cases(s1, [(z3.Not(isn), "val", ty.opt_val(x)), (isn, "val", None)], sink, "L%d" % node.lineno):
+                                nxt.append((s2, pick, b1) if which == 0 else (s2, a1, pick))
+                        else:
+                            nxt.append((s1, a1, b1))
+                    variants = nxt
+                for s1, a1, b1 in variants:
+                    out.append((s1, ops.slice_(v, a1, b1, simp=self.simp_for(s1))))
             return out
         for s, (v, i) in self.ev_list([node.value, node.slice], st, sink):
             if isinstance(v.t, ty.Opt):
